@@ -788,7 +788,8 @@ func aliasJobs(thorough bool) []Job {
 				c := clean()
 				c.HandlerMode = "scribble"
 				sc.Attempts = []e1.Attempt{a, c}
-				jobs = append(jobs, Job{Sc: sc, Bound: bound})
+				// (two attempts: bound 1 in both tiers, bound 2 alone takes the whole budget)
+				jobs = append(jobs, Job{Sc: sc, Bound: 1})
 			}
 		}
 		for _, mode := range []string{"ok", "scribble"} {
